@@ -148,7 +148,7 @@ def run(ctx: Check, tree: Tree) -> None:
     ok = bool(lookups) and all(len(c.args) == 2 and unparse(c.args[1]) == loop_var for c in lookups)
     ctx.verdict(ok, "R-DEPENDS", f"{fn.qual}::raw-suffix-of-node", tree.loc(loop), f"the raw suffix is generate_two_body_decay_suffix(transition, {loop_var}) of the loop's node")
 
-    check_partner_suffix(ctx, tree)
+    ctx.section(check_partner_suffix, ctx, tree)
 
 
 def check_partner_suffix(ctx: Check, tree: Tree) -> None:
